@@ -32,8 +32,11 @@ def balanced_ranges(lines):
 
 
 def _ref_for(rng, k, includer_url):
-    # (a resource is what its content says, whatever its name ends in)
-    name = "frag%d%s" % (k, rng.choice([".conf"] * 9 + [
+    # (a resource is what its content says, whatever its name ends in;
+    # brackets and asterisks in a name are characters of the name)
+    stem = rng.choice(["frag%d"] * 12 + ["fr[%d]", "fr*%d", "f[a-z]%d",
+                                         "fr%d$$x", "$$fr%d"])
+    name = (stem + "%s") % (k, rng.choice([".conf"] * 9 + [
         ".conf.gz", ".gz", ".bz2", ".zip", ".xml", ""]))
     r = rng.random()
     if r < 0.25:
@@ -84,17 +87,17 @@ def cut(rng, lines, top_url=None, ncuts=None, max_depth=3, decoys=True):
         i, j = rng.choice(ranges)
         k += 1
         ref = _ref_for(rng, k, url)
-        target = urllib.parse.urljoin(url, ref)
+        target = urllib.parse.urljoin(url, ref.replace("$$", "$"))
         if target in uni["res"]:
             continue
         frag = []
         for ln in rl[i:j]:
             if ln["role"] == "include" and urllib.parse.urljoin(
-                    target, ln["ref"]) != ln["target"]:
+                    target, ln["ref"].replace("$$", "$")) != ln["target"]:
                 # the include line moves to another directory: keep its target
                 ln = dict(ln)
-                ln["ref"] = ln["target"]
-                ln["t"] = "%include " + ln["target"]
+                ln["ref"] = ln["target"].replace("$", "$$")
+                ln["t"] = "%include " + ln["ref"]
             frag.append(ln)
         inc = {"t": rng.choice(["", "  "]) + "%include " + ref,
                "role": "include", "ref": ref, "target": target}
@@ -105,7 +108,7 @@ def cut(rng, lines, top_url=None, ncuts=None, max_depth=3, decoys=True):
             for base in (top_url, "file:///sim/cwd/here.conf",
                          urllib.parse.urljoin(url, "../x.conf"),
                          urllib.parse.urljoin(url, "deeper/x.conf")):
-                d = urllib.parse.urljoin(base, ref)
+                d = urllib.parse.urljoin(base, ref.replace("$$", "$"))
                 if d != target:
                     uni["decoys"][d] = DECOY_TEXT
     for d in list(uni["decoys"]):
